@@ -15,6 +15,7 @@ import (
 	"math/rand"
 	"os"
 	"reflect"
+	"runtime/debug"
 	"strconv"
 	"strings"
 	"time"
@@ -96,6 +97,18 @@ func pickMsg(kind string) interface{} {
 		return pick(hostile)
 	}
 	return pick(msgs)
+}
+
+// scripts for the "collections" mode
+var collectionScripts = []string{
+	`var m = new Map(); m.set("a", m); return {m: m};`,
+	`var s = new Set(); s.add(s); return {s: s};`,
+	`var m = new Map(); m.set("a", m); _.out({m: m}); return {};`,
+	`var m = new Map(); m.set("a", m); _.bindings.m = m; return {};`,
+	`var m = new Map(), s = new Set(); m.set("s", s); s.add(m); return {deep: [{m: m}]};`,
+	// controls: collections that do not contain themselves are no problem
+	`var m = new Map(); m.set("a", 1); var s = new Set(); s.add(2); _.bindings.n = m.get("a") + s.size; return _.bindings;`,
+	`var m = new Map(); m.set("a", new Map()); return {m: 1, n: m.size};`,
 }
 
 type bias struct {
@@ -975,6 +988,31 @@ func main() {
 			out.write(walkCase(id, "walk", walkIn{a: a, node: "n0", bs: bs, msgs: ms, limit: c.Limit, bps: c.Bps, orig: copyBs(bs)}, true))
 		}
 		check(sc.Err())
+	case "collections":
+		// stepdrv collections <k> <out>: one step of a machine whose action builds an ES2015 collection (Map, Set) that
+		// contains itself and returns, emits or stores it.  One script per process: a script that the engine does not
+		// survive takes the process with it (the caller sees that).
+		debug.SetMaxStack(64 << 20)
+		k, _ := strconv.Atoi(os.Args[2])
+		src := collectionScripts[k%len(collectionScripts)]
+		spec := &core.Spec{Name: "collections", Nodes: map[string]*core.Node{
+			"n0": {ActionSource: &core.ActionSource{Interpreter: "ecmascript", Source: src},
+				Branches: &core.Branches{Type: "bindings", Branches: []*core.Branch{{Target: "n1"}}}},
+			"n1": {}}}
+		check(spec.Compile(context.Background(), nil, true))
+		out := newOut(os.Args[3])
+		defer out.close()
+		stride, err := spec.Step(context.Background(), &core.State{NodeName: "n0", Bs: match.NewBindings()}, nil, core.DefaultControl, nil)
+		o := O{"id": k, "kind": "collections", "source": src, "outcome": "returned", "errtext": "", "to": "none"}
+		if err != nil {
+			o["outcome"], o["errtext"] = "error", err.Error()
+		} else if stride != nil && stride.To != nil {
+			o["to"] = stride.To.NodeName
+			if e, have := stride.To.Bs["error"]; have {
+				o["errtext"] = fmt.Sprint(e)
+			}
+		}
+		out.write(o)
 	case "replay":
 		js, err := os.ReadFile(os.Args[2])
 		check(err)
